@@ -94,6 +94,7 @@ structure OutReq where
   remote : Option Remote
   req : Nat
   observing : Bool          -- `request.opt.observe == 0`
+  idx : Nat                 -- ghost: how many tokens had been handed out before this one
 deriving DecidableEq, Repr
 
 /-- `incoming_requests[(token, remote)] = (pipe, stop)` -/
@@ -124,6 +125,7 @@ structure State where
   drawFn : Nat → Nat                     -- the results of `random.uniform`, in call order
   drawIdx : Nat                          -- how many have been consumed
   issued : Nat                           -- ghost: number of tokens handed out so far
+  tokenCtr0 : Nat                        -- ghost: the initial (random) value of `_token`
   recent : List Recent
   exchanges : List Exchange
   backlogs : List (Remote × List Queued)
@@ -165,6 +167,7 @@ deriving DecidableEq, Repr
 
 def init (cfg : Cfg) (mid token : Nat) (drawFn : Nat → Nat) : State :=
   { cfg, now := 0, nextMid := mid, tokenCtr := token, drawFn, drawIdx := 0, issued := 0,
+    tokenCtr0 := token,
     recent := [], exchanges := [], backlogs := [], piggy := [], outgoing := [], incoming := [],
     nextSrv := 0, shutMsg := false, shutTok := false }
 
@@ -463,7 +466,7 @@ def nextToken (s : State) : Token := tokenOf ((s.tokenCtr + 1) % 2 ^ 64)
 def registerOutgoing (s : State) (r : Nat) (remote : Remote) (mc observing : Bool) : State :=
   { s with tokenCtr := (s.tokenCtr + 1) % 2 ^ 64, issued := s.issued + 1,
            outgoing := s.outgoing ++ [{ token := nextToken s, remote := if mc then none else some remote,
-                                        req := r, observing }] }
+                                        req := r, observing, idx := s.issued }] }
 
 /-- `TokenManager.request` -/
 def submit (s : State) (r : Nat) (remote : Remote) (mc : Bool) (observing : Bool) (m : OutMsg) :
